@@ -28,8 +28,9 @@ def r1_r2_lowering(ctx):
     fi = repo.func(f"{INTO}.node2task")
     ctx.analysed(fi.qual)
     F = Atom("F")
-    node = {"payload": (F, ["input0", 3, "input1", "lit", "input2"], {"kw": 5}),
+    node = {"payload": (F, ["input0", 3, "input1", "lit", "input2"], {"kw": 5, "dim": "input1"}),
             "inputs": {"input0": "src", "input1": ("gen", "1"), "input2": "src"}, "outputs": ["a", "b"]}
+    # "dim": "input1" is a static keyword argument whose text happens to equal an input's name (a dimension called like the input): it is data
     paths = Interp(repo).explore(fi, args={"name": "n", "node": node})
     ctx.evals(len(paths))
     if len(paths) == 1 and paths[0].exit[0] == "raise":
@@ -44,9 +45,9 @@ def r1_r2_lowering(ctx):
         return
     task, edges = rv
     edges = list(edges.values()) if isinstance(edges, dict) else list(edges)
-    got = sorted((vkey(e.fields.get("source").fields.get("task")), e.fields.get("source").fields.get("output"), e.fields.get("sink_task"),
-                  e.fields.get("sink_input_ps"), e.fields.get("sink_input_kw")) for e in edges if isinstance(e, Obj))
-    want = sorted([("'src'", "0", "n", 0, None), ("'gen'", "1", "n", 2, None), ("'src'", "0", "n", 4, None)])
+    got = sorted(((vkey(e.fields.get("source").fields.get("task")), e.fields.get("source").fields.get("output"), e.fields.get("sink_task"),
+                  e.fields.get("sink_input_ps"), e.fields.get("sink_input_kw")) for e in edges if isinstance(e, Obj)), key=vkey)
+    want = sorted([("'src'", "0", "n", 0, None), ("'gen'", "1", "n", 2, None), ("'src'", "0", "n", 4, None)], key=vkey)
     if got != want:
         ctx.violation("C10.R1", fi.qual, loc(fi), "one edge per input",
                       f"node with inputs input0<-src, input1<-(gen,1), input2<-src lowers to edges {got}; expected {want} "
@@ -55,10 +56,10 @@ def r1_r2_lowering(ctx):
         ctx.ok("C10.R1", loc(fi), "one edge per input, source/slot as declared (same source feeding two inputs keeps both edges)")
     ps = task.fields.get("static_input_ps")
     kw = task.fields.get("static_input_kw")
-    if ps != {"0": None, "1": 3, "2": None, "3": "lit", "4": None} or kw != {"kw": 5}:
+    if ps != {"0": None, "1": 3, "2": None, "3": "lit", "4": None} or kw != {"kw": 5, "dim": "input1"}:
         ctx.violation("C10.R2", fi.qual, loc(fi), "static arguments",
                       f"static positional/keyword arguments lowered to {vkey(ps)} / {vkey(kw)}; expected literals at their own index, "
-                      f"edge slots blanked, kwargs copied")
+                      f"edge slots blanked, kwargs copied verbatim (the static keyword dim='input1' is a value, not a reference)")
     else:
         ctx.ok("C10.R2", loc(fi), "static positionals stored under their own index, edge slots blanked, kwargs copied")
     d = task.fields.get("definition")
@@ -424,3 +425,14 @@ def r10_resolve_callable(ctx):
 
 
 RULES.append(r10_resolve_callable)
+
+
+def r11_no_memo(ctx):
+    """C10.R11: lowering and task execution keep no memo keyed by object identity (see common.memo_by_identity)."""
+    from .common import memo_by_identity
+    memo_by_identity(ctx, "C10.R11", ("cascade.low.core", "cascade.low.into", "cascade.low.func", "cascade.executor.runner.runner", "cascade.executor.runner.packages"),
+                     "a job lowered later in the same process gets the encoding / binding computed for an earlier state of that object (a closure whose "
+                     "captured values changed, a callable at a recycled address): its tasks run a stale callable and compute different values")
+
+
+RULES.append(r11_no_memo)
